@@ -6,6 +6,7 @@ package main
 import (
 	"fmt"
 	"go/token"
+	"go/types"
 	"sort"
 	"strings"
 
@@ -266,6 +267,14 @@ func ruleBranch(c *Ctx) {
 			run := bc.Runs[0]
 			lv := bc.Path.linearOf(run.V)
 			n := bc.Shape.length()
+			// ---- S2x: the displacement is built only from the parsed target, the origin and the bytes emitted so far
+			var odd []string
+			for leaf := range lv.Terms {
+				if why := oddBranchLeaf(leaf); why != "" {
+					odd = append(odd, why)
+				}
+			}
+			c.check(len(odd) == 0, "S2", k+"|operands", pos, fmt.Sprintf("the displacement must be target − (origin + bytes emitted) − length with plain integer arithmetic; found %v (masking or rescaling an address changes the distance for some origins)", odd))
 			// ---- S2
 			c.check(lv.K == int64(-n), "S2", k, pos, fmt.Sprintf("form emits %d bytes (%s) but its displacement is (target − current) %+d: the branch lands %d byte(s) off", n, bc.Shape.String(), lv.K, int64(n)+lv.K))
 			// ---- I2: bounds established on the path for a value with the same terms
@@ -351,4 +360,47 @@ func pathBounds(p *pathInfo, lv linear, cls classifier) (lo, hi *int64, k int64,
 		}
 	}
 	return
+}
+
+// oddBranchLeaf: a leaf of the displacement's linear form that is neither the parsed target,
+// nor the origin, nor the running length.
+func oddBranchLeaf(v ssa.Value) string {
+	for i := 0; i < 8; i++ {
+		switch x := v.(type) {
+		case *ssa.Convert:
+			v = x.X
+			continue
+		case *ssa.ChangeType:
+			v = x.X
+			continue
+		}
+		break
+	}
+	switch x := v.(type) {
+	case *ssa.Extract:
+		if call, ok := x.Tuple.(*ssa.Call); ok && strings.HasPrefix(calleeName(&call.Call), "strconv.Parse") {
+			return ""
+		}
+	case *ssa.Phi:
+		for _, e := range x.Edges {
+			if k, ok := e.(*ssa.Const); ok && isIntConst(k) {
+				continue
+			}
+			if why := oddBranchLeaf(e); why != "" {
+				return why
+			}
+		}
+		return ""
+	case *ssa.UnOp:
+		if isFieldLoad(x, "DollarPosition") || isFieldLoad(x, "MachineCodeLen") {
+			return ""
+		}
+	case *ssa.Field:
+		if st, ok := x.X.Type().Underlying().(*types.Struct); ok && st.Field(x.Field).Name() == "MachineCodeLen" {
+			return ""
+		}
+	case *ssa.BinOp:
+		return fmt.Sprintf("%s (%s)", x.Name(), x.Op)
+	}
+	return fmt.Sprintf("%s (%T)", valName(v), v)
 }
